@@ -54,6 +54,16 @@ GemmMagCases ==
       \A e \in {<<100, -120, 40>>, <<-120, 100, 40>>, <<-100, 126, -40>>, <<126, -100, -40>>, <<60, 60, -100>>, <<-70, -70, 120>>} :
          P(GemmMagCase(K, N, e[1], e[2], e[3], tA, tB))
 
+\* long operands: a long outer product, a long row of dot products (each of 2 terms), Gemm with a long bias row
+LongLinearCases ==
+   LET n == 20001 col == T("f32", <<n, 1>>, [k \in 1..n |-> (k % 13) - 6]) row == T("f32", <<1, 2>>, <<3, -2>>)
+       wide == T("f32", <<2, n>>, [k \in 1..(2 * n) |-> (k % 11) - 5]) pair == T("f32", <<1, 2>>, <<2, -1>>)
+       bias == T("f32", <<n>>, [k \in 1..n |-> (k % 7) - 3]) IN
+   /\ P(CaseRec("long", "MatMul", <<>>, <<col, row>>, SemMatMul(col, row), <<"value", "long">>))
+   /\ P(CaseRec("long", "MatMul", <<>>, <<pair, wide>>, SemMatMul(pair, wide), <<"value", "long">>))
+   /\ P(CaseRec("long", "Gemm", <<>>, <<pair, wide, bias>>, SemGemm(pair, wide, bias, <<>>), <<"value", "long">>))
+   /\ P(CaseRec("long", "Gemm", <<AI("transA", 1)>>, <<T("f32", <<1, n>>, col.data), row>>, SemGemm(T("f32", <<1, n>>, col.data), row, Nil, <<AI("transA", 1)>>), <<"value", "long">>))
+
 \* LinearRegressor: coefficients are distinct small integers
 LRCase(N, F, Tg, ik, dt) ==
    LET X == Iota(dt, <<N, F>>, 0)
@@ -97,7 +107,7 @@ Emit ==
                     /\ \A dt \in {"f64", "i32", "i64", "u32", "u64"}, ck \in {"absent", "N", "MN"} :
                           P(GemmCase(st.tA, st.tB, <<Fin(2), Fin(-1)>>, ck, 2, 3, 2, dt, FALSE)) /\ P(GemmCase(st.tA, st.tB, <<Fin(1), Fin(1)>>, ck, 2, 3, 2, dt, TRUE))
                     /\ P(GemmBadInner("f32")))
-              /\ (st.M = 1 /\ st.K = 1 /\ st.N = 1 /\ ~st.tA /\ ~st.tB => GemmMagCases)
+              /\ (st.M = 1 /\ st.K = 1 /\ st.N = 1 /\ ~st.tA /\ ~st.tB => GemmMagCases /\ LongLinearCases)
         [] st.fam = "linreg" ->
               /\ \A ik \in {"absent", "one", "targets", "bad"} : P(LRCase(st.N, st.F, st.Tg, ik, "f32"))
               /\ (st.N = 2 /\ st.F = 2 => \A dt \in {"f64", "i32", "i64"} : P(LRCase(2, 2, st.Tg, "targets", dt)))
